@@ -9,7 +9,7 @@ import os
 import numpy as np
 
 from sim import gen, world as W
-from sim.models import axis_invariants
+from sim.models import axis_invariants, XMapModel
 from sim.seams import FileSeam, RandomSeam, image_after
 
 NAME = "pipeline"
@@ -155,6 +155,7 @@ def execute(trace, ctx):
                     manager.calculate_exchange_maps(op["scale"])
                     for s in attached:
                         mapped_at[s] = True
+                    check_scale_law(ctx, manager, species, attached, op["scale"])
                     ctx.op(kind)
                 elif kind == "extrapolate":
                     out = os.path.join(d, op["out"])
@@ -168,6 +169,38 @@ def execute(trace, ctx):
         finally:
             Alignment.STEPS_FACTOR = old_sf
     ctx.nontrivial = True
+
+
+def check_scale_law(ctx, manager, species, attached, scale):
+    """The map the Manager has just built for a species is the map OF THE REQUESTED SCALE: applied to the alignment's own
+    start molecule it puts every end atom at a + s (p - a) (C01's law, evaluated with an independent nearest-anchor
+    computation).  Without this the per-molecule oracle below (output = the species' map applied to the input molecule)
+    could not notice a scale that never reached the map."""
+    for s in sorted(attached):
+        sp = species[s]
+        if len(sp["start"]["positions"]) < 3:
+            continue
+        ali = manager.molecule_correspondence[sp["name"]]
+        S = np.array(ali.start.atoms_positions)
+        E = np.array(ali.end.atoms_positions)
+        model = XMapModel(S, sp["start"]["edges"], E, scale)
+        if not model.anchors:
+            continue
+        got = np.array(ali.exchange_map(ali.start).atoms_positions)
+        if got.shape != E.shape:
+            ctx.violate(P, "map-scale-law", f"species {sp['name']}: the map returns {got.shape[0]} atoms, the end molecule has {E.shape[0]}")
+            continue
+        for t in range(len(E)):
+            tied = model.tied_anchors(t)
+            if any(model.anchor_sin(a) < 2e-3 for a in tied):
+                continue
+            ctx.probe("scale_law_checked")
+            if not any(float(np.max(np.abs(got[t] - (S[a] + scale * (E[t] - S[a]))))) <= 1e-8 for a in tied):
+                a = tied[0]
+                ctx.violate(P, "map-scale-law", f"species {sp['name']}, scale {scale}: the map built by calculate_exchange_maps puts end "
+                                                f"atom {t} at {got[t].tolist()}, anchor + s (p - anchor) = "
+                                                f"{(S[a] + scale * (E[t] - S[a])).tolist()}", key="scale")
+                break
 
 
 def do_extrapolate(ctx, trace, manager, seam, out, ready, attached, world, last_success, op_i):
